@@ -70,6 +70,43 @@ theorem C12_up_fixed (fixed : Fixed) (free : List ℚ) (j : ℕ) (v : ℚ) (h : 
 theorem C12_up_length (fixed : Fixed) (free : List ℚ) : (projectUp free fixed).length = fixed.length :=
   up_length fixed free
 
+/-! ## … whatever the element type of the vectors (integer arrays, lists of ints, int scalars, float arrays)
+
+`projectUpT dt` / `objectFuncT dt` / `runWrapperT dp dq da` are what the driver executes: `_project_params_up` ALLOCATES its output
+(`upOutDtype`, generated from the allocation statement, gives the element type of that array as a function of the element type numpy
+infers for the reduced vector) and STORES the free and the fixed values into it.  The theorems say that nothing is lost in the store,
+so that every statement of this file about `projectUp` / `objectFunc` / `runWrapper` holds for integer-typed inputs too.  They fail to
+check when the output inherits an integer element type (e.g. `numpy.empty_like(pin, shape=…)`): `DType.int.store (1/4) = 0`. -/
+
+/-- expanding stores every value exactly: the typed projection is `projectUp`, for every element type of the reduced vector -/
+theorem C12_up_dtype (dt : DType) (free : List ℚ) (fixed : Fixed) : projectUpT dt free fixed = projectUp free fixed :=
+  projectUpT_eq dt free fixed
+
+/-- expand ∘ contract is the identity on INTEGER vectors carrying non-integer fixed values, too -/
+theorem C12_up_down_id_typed (dt : DType) (fixed : Fixed) (full : List ℚ) (h : full.length = fixed.length)
+    (hag : ∀ (j : ℕ) (v : ℚ), fixed[j]? = some (some v) → full[j]? = some v) :
+    projectUpT dt (projectDown full fixed) fixed = full := by
+  rw [C12_up_dtype]; exact C12_up_down_id fixed full h hag
+
+/-- contract ∘ expand likewise -/
+theorem C12_down_up_typed (dt : DType) (fixed : Fixed) (free : List ℚ) (h : free.length = nFree fixed) :
+    projectDown (projectUpT dt free fixed) fixed = free := by
+  rw [C12_up_dtype]; exact C12_down_up fixed free h
+
+/-- non-vacuity: an integer reduced vector next to a fixed value that is not an integer; and what an integer-typed output would do to it -/
+example : projectUpT .int (projectDown [3, 1/2, 2] [none, some (1/2), none]) [none, some (1/2), none] = [3, 1/2, 2] := by decide +kernel
+example : DType.int.store (1/4) = 0 ∧ DType.int.store (-3/2) = -1 ∧ DType.int.store 7 = 7 ∧ DType.float.store (1/4) = 1/4 := by decide +kernel
+
+/-- `_object_func` on a parameter vector of any element type (a grid written with integers hands over integer arrays) -/
+theorem C12_objective_dtype (dt : DType) (lower upper : Option Bounds) (fixed : Option Fixed) (s : ℚ) (m : ModelFn) (params : List ℚ) :
+    objectFuncT dt lower upper fixed s m params = objectFunc lower upper fixed s m params :=
+  objectFuncT_eq dt lower upper fixed s m params
+
+/-- a whole wrapper run, whatever the element types of the caller's `p0`, of the optimiser's queries and of its answer -/
+theorem C12_run_dtype (dp dq da : DType) (w : Wrapper) (expF logF : ℚ → ℚ) (pb : Problem) (m : ModelFn) (opt : Opt) (fuel : ℕ) :
+    runWrapperT dp dq da w expF logF pb m opt fuel = runWrapper w expF logF pb m opt fuel :=
+  runWrapperT_eq dp dq da w expF logF pb m opt fuel
+
 /-! ## `_object_func`: bound check before the model, sentinel outside -/
 
 /-- the model function is called only inside the box, and exactly at the vector with the fixed values folded in -/
